@@ -45,6 +45,7 @@ func (r *BasicPrivateTokenRequest) Marshal() []byte {
 }
 
 func (r *BasicPrivateTokenRequest) Unmarshal(data []byte) bool {
+	r.raw = nil
 	s := cryptobyte.String(data)
 
 	var tokenType uint16
